@@ -84,7 +84,7 @@ CHECKS.update({
         'text': ('Every nesting chain of the 26 construct variants to depth 3 (quick) / 4 (thorough) is parsed at global scope, inside a '
                  'function and in a three-function script, plus sibling and function-after-construct placements and random deeper '
                  'programs; the contract checks schema validity, that each generated jump targets a label defined exactly once in its '
-                 'scope, that each generated label is targeted, and lint must emit no label warning.'),
+                 'scope, that each generated label is targeted, and lint must emit no label warning; near-valid texts crossing a function boundary must be rejected or satisfy the same contract; shapes and their empty-body variants are executed and watched for "Unknown jump label".'),
         'note': 'Trusts schema_markdown validation and the label-fact checker in vf/contracts.py; the run-time half (no Unknown jump label) is observed by C01/C08 executions.',
         'design_ref': '5/C07',
     },
@@ -93,7 +93,7 @@ CHECKS.update({
         'technique': 'runtime monitoring with a mutation sanitizer (frozen model proxies), statement-counter recorder and log recorder; RefVM small-step reference as oracle; exhaustive statement lists',
         'text': ('Every statement list of length <= 4 (quick) / <= 6 (thorough) over a 13-statement alphabet x 4 function configurations is '
                  'executed on a frozen model and again on a plain copy and compared with RefVM on result/error, log, globals and '
-                 'statement count; random models to 40 statements and parsed structured programs add breadth.'),
+                 'statement count; random models to 40 statements (also run with one options dict shared across models) and parsed structured programs add breadth.'),
         'note': 'Trusts RefVM + RefEval; one-level functions; calls always carry args; F14 classified by the bool-coercing variant.',
         'design_ref': '5/C08',
     },
@@ -189,7 +189,7 @@ CHECKS.update({
                  'relative, sub-directory, ../, absolute and system references, adjacent includes, early returns and globals/functions '
                  'defined by includes are executed fault-free and with each fetch in turn failing in three ways; result or error '
                  '(kind and resolved location), ordered fetch sequence, log and globals must equal the reference.'),
-        'note': 'Trusts RefVM/resolve; included texts are parsed by the real parser on both sides; includes only at top level of a file; system prefix ends in "/".',
+        'note': 'Trusts RefVM/resolve; included texts are parsed by the real parser on both sides; includes at top level of a file or inside a function defined and called in that same file; system prefix (absolute, relative or URL) ends in "/".',
         'design_ref': '5/C17',
     },
     'C18': {
